@@ -176,6 +176,33 @@ Example restart_script_ex :
    (RSess, Some (KGen 2, [(3%N, 4%N)], Some 5%N))].
 Proof. vm_compute. repeat split. Qed.
 
+(* the same with GetAndDelete in place of Delete (it writes through: one save,
+   like Delete), and a GetAndDelete of an absent key before the ID change (no
+   persistence call): the same five calls, the same outcomes *)
+Definition r1G (n : nat) : reqstep :=
+  mkReqStep 1 PJar true (V4 1 2 3 4 5) 7 [SGetDel 9; SSet 3 4; SRegen; SGetDel 1] [] [] (Some n).
+
+Lemma script_crash_ex_getdel n :
+  hcrash wG (r1G n) n (KGen 1) 0 obG ([SGetDel 9; SSet 3 4] ++ SRegen :: [SGetDel 1]).
+Proof.
+  apply mkHC; try (vm_compute; reflexivity).
+  - rewrite wG_eq. apply LiveHist8.reach_sess_inv; repeat (constructor; try exact I; try reflexivity).
+  - eexists. split; vm_compute; reflexivity.
+  - intros d k' H. vm_compute in H. destruct H as [H|[]]. injection H as <- _. vm_compute. reflexivity.
+Qed.
+
+Definition outcomeG (n : nat) :=
+  let w' := fst (step wG (HReq (r1G n))) in
+  (ob_res (snd (step w' (HReq r2X))),
+   option_map (fun x => (fst x, dat (snd x), uid (snd x))) (ob_start (snd (step w' (HReq r2X))))).
+
+Example restart_script_ex_getdel :
+  forallb plainop [SGetDel 9; SSet 3 4] = true /\ forallb plainop [SGetDel 1] = true /\
+  map (fun j => dafter [(1%N, 2%N)] (firstn j ([SGetDel 9; SSet 3 4] ++ [SGetDel 1]))) [0; 1; 2; 3]%nat =
+    [[(1%N, 2%N)]; [(1%N, 2%N)]; [(1%N, 2%N); (3%N, 4%N)]; [(3%N, 4%N)]] /\
+  map outcomeG [0; 1; 2; 3; 4; 5; 6]%nat = map outcomeS [0; 1; 2; 3; 4; 5; 6]%nat.
+Proof. vm_compute. repeat split. Qed.
+
 (* ------------------------------------------------------------------ C18L *)
 
 Definition wC : world := Eval vm_compute in reach cB [HReq (rqB 1 PJar true [SSet 1 2])].
